@@ -81,13 +81,15 @@ def gen_csv(rng):
         if k >= 2 and rng.random() < 0.15:
             pat[rng.randrange(k - 1)] = ""  # a skipped position in the middle
         patterns.append(pat)
+    if rng.random() < 0.3:
+        patterns.append([""] * n_rank)  # a voter who left every rank blank: one ballot of explicit blanks
     rows = []
     id_style = rng.choice(["str", "int"])
     only_ranks = not (has_id or has_w or has_extra)
     for i in range(nrows):
         pat = list(rng.choice(patterns))
-        if only_ranks and all(x == "" for x in pat):
-            pat[0] = pool[0]
+        if len(layout) == 1 and all(x == "" for x in pat):
+            pat[0] = pool[0]  # a one-column file: the line would be empty and pandas skips empty lines
         row = []
         ri = 0
         for typ, _ in layout:
